@@ -121,7 +121,7 @@ def r2_allow_truthful(ctx):
             nx = ms.calls(L.NEXT)
             nexts = set(b for _, b, _ in nx)
             clean = not callee_allow(ms, L.VALUE_PLUMBING + [L.NEXT]) and not any(a[0] in ("lit", "const") for a in ms.atoms)
-            ok, gnexts, why = L.version_filtered_item(lr, bb, vparam)
+            ok, gnexts, why = L.version_filtered_item(lr, bb, vparam, want=nexts)
             good = ok and gnexts == nexts and clean
             detail = why + ("; the Allow value is the key of that same item" if good else "")
             from_node = good
